@@ -1904,6 +1904,75 @@ def check_bare(ctx, res):
             res.count("oracle:bare-container-results-are-the-call's-own")
 
 
+# ---- references by NAME issued through a helper module (a loader that is handed the name of the type): what one name resolved to --
+# or failed to -- is nothing to the next name
+REFSEQ_APP = """
+import dataclasses
+import c12_loader
+@dataclasses.dataclass
+class Point:
+    x: int
+    y: int
+@dataclasses.dataclass
+class Line:
+    start: Point
+    end: Point
+@dataclasses.dataclass
+class Tag:
+    name: str
+def run(seq):
+    out = []
+    for kind, raw in seq:
+        try:
+            out.append(["ok", repr(c12_loader.load(kind, raw))])
+        except Exception as e:
+            out.append(["raised", type(e).__name__])
+    return out
+"""
+REFSEQ_LOADER = "import typelib\ndef load(kind, raw):\n    return typelib.unmarshal(kind, raw)\ndef dump(kind, v):\n    return typelib.marshal(v, t=kind)\n"
+REFSEQ_STEPS = {"Point": ("Point", {"x": "1", "y": "2"}), "Line": ("Line", {"start": {"x": 1, "y": 2}, "end": {"x": "3", "y": 4}}),
+                "Tag": ("Tag", {"name": 5}), "Pint": ("Pint", {"x": 1}), "Lime": ("Lime", {}), "list[Point]": ("list[Point]", [{"x": 1, "y": "2"}])}
+REFSEQ_SEQS = [["Point", "Pint", "Line"], ["Pint", "Point"], ["Lime", "Pint", "Tag", "Line"], ["Point", "Line", "Tag"], ["Tag", "Lime", "Point", "Pint", "Line"],
+               ["Pint", "list[Point]"], ["Line", "Pint", "Point", "Tag"]]
+
+
+def _refseq_child(seq):
+    import importlib
+    import os
+    import sys
+    import tempfile
+    import warnings
+    warnings.simplefilter("ignore")
+    d = tempfile.mkdtemp(prefix="c12ref")
+    for name, src in (("c12_app.py", REFSEQ_APP), ("c12_loader.py", REFSEQ_LOADER)):
+        with open(os.path.join(d, name), "w") as f:
+            f.write(src)
+    sys.path.insert(0, d)
+    app = importlib.import_module("c12_app")
+    return app.run([REFSEQ_STEPS[k] for k in seq])
+
+
+def check_reference_sequences(res):
+    singles = sorted(REFSEQ_STEPS)
+    outs = iso.map_isolated(_refseq_child, [[k] for k in singles] + REFSEQ_SEQS, timeout=60.0)
+    cold = {}
+    for k, o in zip(singles, outs):
+        if not isinstance(o, list):
+            raise RuntimeError(f"harness: reference sequence probe failed: {o}")
+        cold[k] = o[0]
+    for seq, o in zip(REFSEQ_SEQS, outs[len(singles):]):
+        if not isinstance(o, list):
+            raise RuntimeError(f"harness: reference sequence probe failed: {o}")
+        for i, (k, got) in enumerate(zip(seq, o)):
+            res.case({"refseq": seq[:i + 1]}, i > 0)
+            if got != cold[k]:
+                res.failures.append({"what": f"load({k!r}, ...) through a helper module answers {got} after {seq[:i]} and {cold[k]} in a cold process",
+                                     "input": {"refseq": seq[:i + 1]}})
+                break
+        else:
+            res.count("oracle:reference-by-name-independent-of-earlier-names")
+
+
 def explore(ctx):
     res = Result()
     res.rule = RULE
@@ -1913,6 +1982,7 @@ def explore(ctx):
     check_sites(ctx, res, table)
     check_sequences(ctx, res)
     check_bare(ctx, res)
+    check_reference_sequences(res)
     internal = iso.map_isolated(_internal_child, [None], timeout=120.0)[0]
     if isinstance(internal, dict) and "crash" in internal:
         raise RuntimeError(f"harness: internal-site probe failed: {internal}")
@@ -1961,6 +2031,11 @@ def witness(fid):
 def replay(failure):
     inp = failure["input"]
     core.import_typelib()
+    if "refseq" in inp:
+        warm = iso.map_isolated(_refseq_child, [inp["refseq"]], timeout=60.0)[0]
+        cold_ = iso.map_isolated(_refseq_child, [[inp["refseq"][-1]]], timeout=60.0)[0]
+        print(json.dumps({"sequence": inp["refseq"], "warm": warm, "cold (last step alone)": cold_}, indent=1, default=str)[:3000])
+        return not isinstance(warm, list) or warm[-1] != cold_[0]
     if inp.get("site") == "graph-walk":
         o = iso.map_isolated(_internal_child, [None], timeout=120.0)[0]
         print(json.dumps(o.get("graph_walk") if isinstance(o, dict) else o, indent=1, default=str)[:3000])
